@@ -136,6 +136,9 @@ def run(ctx):
     ctx.rule("R9", "analytical dispersion gradient is the derivative of the dispersion pair energy (AM1-FS1, expression algebra)")
     ctx.rule("R10", "derivative of the rotated two-electron integrals: product rule over (local integrals, frame) and d(frame)/dX of the quaternion frame (110 + 27 identities)")
     ctx.rule("R11", "core-electron attraction derivatives e1b_x / e2a_x are the same linear map of w_x as e1b / e2a of w (charge atom, packed index, pair class)")
+    ctx.rule("R12", "density contraction of the integral derivatives is the derivative of the package's own energy functional at fixed density (RHF and UHF, exact identity on a padded symbolic batch)")
+    from ..assembly import check_gradient_contraction
+    check_gradient_contraction(ctx, "R12")
     _r9_dispersion(ctx, repo)
     _r10_rotation_derivative(ctx, repo)
     _r11_core_electron(ctx, repo)
